@@ -63,7 +63,7 @@ type spec struct {
 	Prefix   string  `json:"prefix"`
 }
 
-var labelAlpha = []string{"a", "b", "Z", "0", "9", "é", "+", "#", "@", "x1", "long"}
+var labelAlpha = []string{"a", "b", "Z", "0", "9", "é", "+", "#", "@", "x1", "long", "%", "%s", "%2F"}
 var namePool = []string{"requests", "latency_ms", "queue", "a", "errors_total", "up", "size"}
 
 func genSpec(g *ev.RNG, prefix string, nonFinite bool) spec {
@@ -570,7 +570,7 @@ type witness struct {
 func TestC22(t *testing.T) {
 	r := ev.Start(t, "C22", "exploration")
 	defer r.Finish()
-	r.Rule("random stores with >=2 label sets per dimensioned metric and pairwise distinct values and timestamps (every kind/type, 0-3 keys incl. unsorted key order, label values over an alphabet without whitespace/separators, non-finite floats in a quarter of the stores, random prefixes and hostnames) exported through /json, /varz, /graphite (httptest) and the graphite/statsd/collectd push path (verif write hook, one record per write); records compared as multisets with reference formatters written from the format descriptions; JSON decoded and compared field by field. Non-trivial: >=1 dimensioned metric with >=2 label sets; distinct by spec.")
+	r.Rule("random stores with >=2 label sets per dimensioned metric and pairwise distinct values and timestamps (every kind/type, 0-3 keys incl. unsorted key order, label values over an alphabet without whitespace/separators but with %, %s and %2F, non-finite floats in a quarter of the stores, random prefixes and hostnames) exported through /json, /varz, /graphite (httptest) and the graphite/statsd/collectd push path (verif write hook, one record per write); records compared as multisets with reference formatters written from the format descriptions; JSON decoded and compared field by field. Non-trivial: >=1 dimensioned metric with >=2 label sets; distinct by spec.")
 	r.Assume("label values contain no whitespace and none of . - _ , = { } / \" : | (as the quantifier states)", "records of metrics outside a format's stated scope (text; histograms for statsd/collectd) are ignored")
 	per := ev.Pick(700, 34000)
 	rng := ev.NewRNG(ev.Seed(), "c22")
